@@ -271,6 +271,16 @@ pub fn run(ctx: &Ctx) -> CheckResult {
                 for &p in &large_windows {
                     check_new(&Cfg::p2(k, p, 3), &mut out);
                 }
+                // pairs whose product, sum or difference wraps (2^10 * 2^54 = 2^64): the window size in the
+                // first position, every power of two and its neighbours in the second
+                for &a in &[1usize, 3, 16, 96, 1 << 10, 1 << 16] {
+                    for e in 0..64u32 {
+                        for b in [(1usize << e).wrapping_sub(1), 1usize << e, (1usize << e).wrapping_add(1)] {
+                            check_new(&Cfg::p2(k, a, b), &mut out);
+                        }
+                    }
+                    check_new(&Cfg::p2(k, a, usize::MAX), &mut out);
+                }
             }
             _ => {
                 for a in 0..=tmax {
@@ -290,6 +300,15 @@ pub fn run(ctx: &Ctx) -> CheckResult {
                     check_new(&Cfg::p3(k, 12, p, 9), &mut out);
                     check_new(&Cfg::p3(k, 12, 26, p), &mut out);
                     check_new(&Cfg::p3(k, p, p, p), &mut out);
+                }
+                // triples whose products / sums wrap (2^21 * 2^43, 2^16 * 2^48, 2^22 * 2^21 * 2^21, ...)
+                let wide = [0usize, 1, 3, 1 << 16, 1 << 21, 1 << 22, 1 << 32, 1 << 43, 1 << 48, 1 << 54, 1 << 60, 1 << 63, usize::MAX];
+                for &a in &wide {
+                    for &b in &wide {
+                        for &c in &wide {
+                            check_new(&Cfg::p3(k, a, b, c), &mut out);
+                        }
+                    }
                 }
             }
         }
@@ -318,6 +337,6 @@ pub fn run(ctx: &Ctx) -> CheckResult {
     }
     res.extra.insert("defaults".into(), json!(ALL_KINDS.iter().map(|k| k.default_cfg().display_text()).collect::<Vec<_>>()));
     res.rule = "case = one constructor call (every period / period tuple / multiplier listed in bounds) under catch_unwind in the overflow-checked build: Err(InvalidParameter) iff some period is 0, else Ok with period()/multiplier()/Display equal to the arguments; plus accessors re-checked after every operation of every history, and Default::default() vs new(documented defaults) output-by-output; non-trivial = constructor with a period > 1 / accessor check after >= 1 operation".into();
-    res.bounds = format!("single-period constructors: every period 0..={pmax}; multi-period: every tuple over 0..={tmax} plus every period 0..={pmax} in each position; multipliers {{2,0,-1,NaN,1e300,2.71828,1e-5,1e305,-0.0,+-inf, 1-1ulp, 2+1ulp, 1e-10, -3+1ulp}}; boundary periods 2^31, 2^32, 2^53+1, usize::MAX-1, usize::MAX for allocation-free indicators and 2^16, 2^20, 2^24, 2^24+1, 2^25 for windowed ones; accessors (also on a clone, on a bincode-restored copy and on instances overwritten with clone_from) after every op of every history in seq(values+special+reset, {}); Default (also reset / cloned / formatted before its first input) vs new(defaults) on all 4^{} input patterns", if th { 5 } else { 4 }, if th { 5 } else { 4 });
+    res.bounds = format!("single-period constructors: every period 0..={pmax}; multi-period: every tuple over 0..={tmax} plus every period 0..={pmax} in each position; multipliers {{2,0,-1,NaN,1e300,2.71828,1e-5,1e305,-0.0,+-inf, 1-1ulp, 2+1ulp, 1e-10, -3+1ulp}}; boundary periods 2^31, 2^32, 2^53+1, usize::MAX-1, usize::MAX for allocation-free indicators, SlowStochastic (6 window sizes) x (every 2^e and 2^e+-1, usize::MAX), MACD / PPO over all 13^3 triples of {{0, 1, 3, 2^16, 2^21, 2^22, 2^32, 2^43, 2^48, 2^54, 2^60, 2^63, usize::MAX}} and 2^16, 2^20, 2^24, 2^24+1, 2^25 for windowed ones; accessors (also on a clone, on a bincode-restored copy and on instances overwritten with clone_from) after every op of every history in seq(values+special+reset, {}); Default (also reset / cloned / formatted before its first input) vs new(defaults) on all 4^{} input patterns", if th { 5 } else { 4 }, if th { 5 } else { 4 });
     res
 }
